@@ -14,6 +14,9 @@ using namespace wc;
 #ifndef VK_RM
 #define VK_RM 0             // Receive Maximum announced by the broker (0: none)
 #endif
+#ifndef VK_DROP
+#define VK_DROP 0            // how the connection dies: 0 reset, 1 eof / broken pipe, 2 aborted, 3 any of them (forked)
+#endif
 #ifndef VK_MODE      // 1: C01, 2: C02, 3: C03, 6: C06
 #define VK_MODE 1
 #endif
@@ -157,7 +160,7 @@ struct X {
         if (how == 1) { w.lose_write(ps); vk::drain(); for (int q = 0; q < nreq; q++) lost_tx[q] = true; vk_reach("write-lost-in-flight"); }
         else if (how == 2 && ps->wdata.size() > 3) { for (size_t i = 0; i < 3 && w.rx_n < RXCAP; i++) w.rx[w.rx_n++] = (uint8_t)ps->wdata[i]; vk_reach("write-failed-after-partial-delivery"); }   // the broker got the first bytes, then the write fails
       }
-      w.drop_connection(); vk::drain(); for (int q = 0; q < VK_REQS; q++) early_req[q] = false;
+      w.drop_connection_any(VK_DROP); vk::drain(); for (int q = 0; q < VK_REQS; q++) early_req[q] = false;
     } else if (!w.attempt_in_progress()) vk_assume(0);      // the client itself left the connection (e.g. after DISCONNECT 0x81) and is reconnecting
     int before = w.npk;
     bool ok = w.establish(); vk_assert(ok, "the client reconnects after a connection loss");
